@@ -9,6 +9,7 @@ import (
 	"github.com/relex/slog-agent/base"
 	"github.com/relex/slog-agent/defs"
 	"github.com/relex/slog-agent/orchestrate/obase"
+	"github.com/relex/slog-agent/util"
 	"github.com/relex/slog-agent/util/localcachedmap"
 )
 
@@ -112,7 +113,7 @@ func (o *byKeySetOrchestrator) newPipeline(keys []string, onStopped func()) chan
 	pipelineMetricCreator := o.metricCreator.AddOrGetPrefix(
 		"process_",
 		append([]string{"orchestrator"}, o.metricKeyNames...),
-		append([]string{"byKeySet"}, keys...),
+		append([]string{"byKeySet"}, util.ValidUTF8Strings(keys)...), // field values may contain anything
 	)
 	o.startPipeline(pipelineLogger, pipelineMetricCreator, inputChannel, workerID, outputTag, onStopped)
 	return inputChannel
